@@ -172,24 +172,110 @@ func spilled(r *ssa.Return, i int) ssa.Value {
 	return v
 }
 
+// selection describes a value as a choice among values per incoming edge of a
+// block: a real phi, or a load of a non-escaping local cell (a named result
+// kept in memory because the function defers) with one reaching store per
+// predecessor.
+type selection struct {
+	blk   *ssa.BasicBlock
+	edges []ssa.Value // per predecessor of blk
+}
+
+func asSelection(v ssa.Value) *selection {
+	if ph, ok := v.(*ssa.Phi); ok {
+		return &selection{ph.Block(), ph.Edges}
+	}
+	u, ok := v.(*ssa.UnOp)
+	if !ok || u.Op != token.MUL {
+		return nil
+	}
+	al, ok := u.X.(*ssa.Alloc)
+	if !ok || al.Heap {
+		return nil
+	}
+	for _, ref := range *al.Referrers() {
+		switch x := ref.(type) {
+		case *ssa.Store:
+			if x.Addr != ssa.Value(al) {
+				return nil
+			}
+		case *ssa.UnOp, *ssa.DebugRef:
+		default:
+			return nil // address escapes
+		}
+	}
+	blk := u.Block()
+	// a store earlier in the load's own block decides alone
+	for _, in := range blk.Instrs {
+		if in == ssa.Instruction(u) {
+			break
+		}
+		if st, ok := in.(*ssa.Store); ok && st.Addr == ssa.Value(al) {
+			return nil
+		}
+	}
+	// reaching value at the end of every block: nil = not yet known, multi = several
+	multi := ssa.Value(al)
+	out := map[*ssa.BasicBlock]ssa.Value{}
+	f := blk.Parent()
+	for changed := true; changed; {
+		changed = false
+		for _, b := range f.Blocks {
+			var val ssa.Value
+			for _, p := range b.Preds {
+				pv := out[p]
+				switch {
+				case pv == nil:
+				case val == nil:
+					val = pv
+				case val != pv:
+					val = multi
+				}
+			}
+			for _, in := range b.Instrs {
+				if st, ok := in.(*ssa.Store); ok && st.Addr == ssa.Value(al) {
+					val = st.Val
+				}
+			}
+			if val != nil && out[b] != val {
+				out[b] = val
+				changed = true
+			}
+		}
+	}
+	sel := &selection{blk: blk}
+	for _, p := range blk.Preds {
+		pv := out[p]
+		if pv == nil || pv == multi {
+			return nil
+		}
+		// a stored value that is itself a load of the cell (x = x): look through it once
+		sel.edges = append(sel.edges, pv)
+	}
+	if len(sel.edges) < 2 {
+		return nil
+	}
+	return sel
+}
+
 // parseMapsFlagToZero: in the scanner entry, whenever the failure flag field
 // is set, the first result is the constant 0: the first result is a phi/select
 // of 0 controlled by a load of that field.
 func parseMapsFlagToZero(m *jsonModel, field int) (bool, string) {
 	for _, r := range core.Returns(m.parse) {
 		v := spilled(r, 0)
-		ph, ok := v.(*ssa.Phi)
-		if !ok {
+		ph := asSelection(v)
+		if ph == nil {
 			return false, fmt.Sprintf("first result of %s is %s, not a selection controlled by the failure flag", m.parse.Name(), v)
 		}
 		// one edge constant 0 coming from a block entered on flag==true
 		okZero := false
-		for k, e := range ph.Edges {
+		for k, e := range ph.edges {
 			if !core.IsConstInt(e, 0) {
 				continue
 			}
-			pred := ph.Block().Preds[k]
-			for _, de := range append(core.DominatingConds(pred), edgeCond(pred, ph.Block())...) {
+			pred := ph.blk.Preds[k]
+			for _, de := range append(core.DominatingConds(pred), edgeCond(pred, ph.blk)...) {
 				cond, val := core.StripNot(de.Cond, de.Val)
 				if _, f, isLoad := core.LoadOfField(cond); isLoad && f == field && val {
 					okZero = true
@@ -197,13 +283,13 @@ func parseMapsFlagToZero(m *jsonModel, field int) (bool, string) {
 			}
 		}
 		// and the non-zero edge must be entered only on flag==false
-		for k, e := range ph.Edges {
+		for k, e := range ph.edges {
 			if core.IsConstInt(e, 0) {
 				continue
 			}
-			pred := ph.Block().Preds[k]
+			pred := ph.blk.Preds[k]
 			guarded := false
-			for _, de := range append(core.DominatingConds(pred), edgeCond(pred, ph.Block())...) {
+			for _, de := range append(core.DominatingConds(pred), edgeCond(pred, ph.blk)...) {
 				cond, val := core.StripNot(de.Cond, de.Val)
 				if _, f, isLoad := core.LoadOfField(cond); isLoad && f == field && !val {
 					guarded = true
@@ -1090,9 +1176,9 @@ var ruleParseResults = &core.Rule{ID: "R08.3", Min: 4,
 				v := spilled(r, i)
 				if i == 0 {
 					ok := v == ssa.Value(m.entry)
-					if ph, isPhi := v.(*ssa.Phi); isPhi {
+					if ph := asSelection(v); ph != nil {
 						ok = true
-						for _, e := range ph.Edges {
+						for _, e := range ph.edges {
 							if e != ssa.Value(m.entry) && !core.IsConstInt(e, 0) {
 								ok = false
 							}
